@@ -17,6 +17,7 @@ EXPLANATION = (
     "C06.H4 (A6): the key-binding JWT builder is reachable only when nonce, aud and holder_key are all given; with none given Ok is reachable without it; any other combination reaches no Ok; and (A8) every holder field the call mutates is wholly re-assigned before its first use in the call, so nothing from an earlier presentation can appear. "
     "C06.H5: the compact form is join([jwt] ++ disclosures ++ [kb], \"~\") in this order. That the *right* disclosures are chosen for an arbitrary tree and selection, and 'each at most once', are not decided."
     " C06.H2 also (recursion roles): claims and selection are handed on in lock step through every recursive call. C06.H5 exact form: the returned compact text is evaluated to its token normal form for 0..3 disclosures and must be jwt~d0~…~d(n-1)~kb; the join-order check is the fallback for builders outside the model."
+    " C06.H2 positional-zip: no dropping or reordering adaptor on either side of the claims/selection zip."
 )
 ASSUMPTIONS = [
     "hash_to_disclosure maps digest -> the presented string (C03.V1)",
